@@ -22,7 +22,8 @@ import (
 // C04: diff.DiffTables / findOverlappingBlocks vs model (coq/model/Diff.v) and vs an
 // independent map-based oracle.
 //
-// case kind 0:  (0 flags T1 T2)   flags bit0 = emitUnchanged, bit1 = both tables in one object store;
+// case kind 0:  (0 flags T1 T2)   flags bit0 = emitUnchanged, bit1 = both tables in one object store,
+//               bit2 = table indices rebuilt by ingest.IndexTable (the route of a received table);
 //               T = (pknames columns rows), pknames/columns = lists of
 //               byte strings, rows = ((key rowid) ...) sorted by key, key = list of byte strings.
 //     The harness turns a row into CSV cells: the j-th pk column gets key[j] (keyless table:
@@ -107,6 +108,7 @@ func c04Cells(t *c04Table, r c04Row) []string {
 type c04Built struct {
 	db     *objmock.Store
 	tbl    *objects.Table
+	sum    []byte
 	idx    [][]string
 	byPK   map[string]int // pk hash -> row position in the case
 	bySum  map[string]int // row hash -> row position in the case
@@ -119,6 +121,34 @@ var c04Cache = map[string]*c04Built{}
 func c04Hash(enc *objects.StrListEncoder, ss []string) string {
 	arr := meow.Checksum(0, enc.Encode(ss))
 	return string(arr[:])
+}
+
+// c04Reindex rebuilds the table index (and block indices) of a stored table with
+// ingest.IndexTable, which is what a repository does for every table it RECEIVES (fetch, pull,
+// push); the diff must not depend on which of the two routes produced the index.
+func c04Reindex(b *c04Built) {
+	sum := b.sum
+	if err := ingest.IndexTable(b.db, sum, b.tbl, logr.Discard()); err != nil {
+		panic(fmt.Sprintf("IndexTable: %v", err))
+	}
+	idx, err := objects.GetTableIndex(b.db, sum)
+	if err != nil {
+		panic(err)
+	}
+	b.idx = idx
+}
+
+func c04BuildFlags(t *c04Table, text string, reindexed bool) *c04Built {
+	if !reindexed {
+		return c04Build(t, text)
+	}
+	if b, ok := c04Cache[text+"#reindexed"]; ok {
+		return b
+	}
+	b := c04BuildInto(objmock.NewStore(), t)
+	c04Reindex(b)
+	c04Cache[text+"#reindexed"] = b
+	return b
 }
 
 func c04Build(t *c04Table, text string) *c04Built {
@@ -166,7 +196,7 @@ func c04BuildInto(db *objmock.Store, t *c04Table) *c04Built {
 	if err != nil {
 		panic(err)
 	}
-	b := &c04Built{db: db, tbl: tbl, idx: idx, byPK: map[string]int{}, bySum: map[string]int{}, src: t, blocks: map[int][][]string{}}
+	b := &c04Built{db: db, tbl: tbl, sum: sum, idx: idx, byPK: map[string]int{}, bySum: map[string]int{}, src: t, blocks: map[int][][]string{}}
 	enc := objects.NewStrListEncoder(true)
 	for i, r := range t.Rows {
 		cells := c04Cells(t, r)
@@ -244,6 +274,7 @@ func runC04(ctx *Ctx, c *xt.T) (*xt.T, Verdict) {
 	}
 	emitUnchanged := c.Kids[1].N&1 != 0
 	shared := c.Kids[1].N&2 != 0
+	reindexed := c.Kids[1].N&4 != 0
 	t1 := c04ParseTable(c.Kids[2])
 	t2 := c04ParseTable(c.Kids[3])
 	var b1, b2 *c04Built
@@ -253,9 +284,13 @@ func runC04(ctx *Ctx, c *xt.T) (*xt.T, Verdict) {
 		db := objmock.NewStore()
 		b1 = c04BuildInto(db, t1)
 		b2 = c04BuildInto(db, t2)
+		if reindexed {
+			c04Reindex(b1)
+			c04Reindex(b2)
+		}
 	} else {
-		b1 = c04Build(t1, c.Kids[2].String())
-		b2 = c04Build(t2, c.Kids[3].String())
+		b1 = c04BuildFlags(t1, c.Kids[2].String(), reindexed)
+		b2 = c04BuildFlags(t2, c.Kids[3].String(), reindexed)
 	}
 	v := OK()
 	bad := func(class, format string, a ...interface{}) {
@@ -603,10 +638,10 @@ func genC04(ctx *Ctx) []Case {
 		c04IntTable(c04Range(0, 700, 1), 3),     // same keys as others, some rows changed
 		c04IntTable(c04Range(2000, 2300, 1), 0), // disjoint, above everything
 		c04IntTable(c04Range(0, 1020, 1), 0),    // exactly 4 full blocks
-		c04IntTable(c04Range(0, 1020, 1), 4),    // identical key range, changed rows
 	}
+	full4b := c04IntTable(c04Range(0, 1020, 1), 4) // identical key range of 4 full blocks, changed rows
 	if ctx.Thorough() {
-		big = append(big,
+		big = append(big, full4b,
 			c04IntTable(c04Range(0, 510, 1), 0),
 			c04IntTable(c04Range(0, 511, 1), 2),
 			c04IntTable(c04Range(300, 1275, 1), 5), // 975 rows, blocks misaligned with the 0-based tables
@@ -846,6 +881,106 @@ func genC04(ctx *Ctx) []Case {
 		add("rand", ctx.Pick(8) == 0, t1, t2)
 	}
 
+	// --- whole blocks shared at shifted positions: a side inserted / removed an exact multiple of 255
+	//     rows in front of untouched blocks, a middle block removed, blocks exchanged between key
+	//     ranges, with edits inside and outside the shared blocks.  Run with emitUnchanged off and on
+	//     (on: every unchanged row is an event whose two offsets must address that row in each table).
+	{
+		const b0 = 1000
+		nb := 3 // blocks of the base table B0 .. B(nb-1)
+		if ctx.Thorough() {
+			nb = 4
+		}
+		last := nb - 1
+		blks := func(from, to int) []int { return c04Range(b0+255*from, b0+255*to, 1) } // blocks [from, to)
+		edit := func(t *c04Table, keys ...int) *c04Table {
+			out := &c04Table{PK: t.PK, Cols: t.Cols, Rows: append([]c04Row{}, t.Rows...)}
+			for i := range out.Rows {
+				for _, k := range keys {
+					if out.Rows[i].Key[0] == c04Key1(k)[0] {
+						out.Rows[i].RowID += 7
+					}
+				}
+			}
+			return out
+		}
+		cat := func(parts ...[]int) []int {
+			var r []int
+			for _, p := range parts {
+				r = append(r, p...)
+			}
+			return r
+		}
+		sh := []*c04Table{
+			c04IntTable(blks(0, nb), 0),                                                            // B0 .. Blast
+			c04IntTable(blks(1, nb), 0),                                                            // first block removed
+			c04IntTable(cat(blks(0, 1), blks(2, nb)), 0),                                           // middle block removed
+			c04IntTable(cat(c04Range(0, 255, 1), blks(0, nb)), 0),                                  // 255 rows inserted in front
+			edit(c04IntTable(blks(1, nb), 0), b0+300, b0+255*nb-1),                                 // shifted, edits inside shared blocks
+			c04IntTable(cat(blks(last, nb), c04Range(5000, 5300, 1)), 0),                           // last block moved to the front of other rows
+			c04IntTable(cat(blks(1, nb), c04Range(5000, 5080, 1)), 0),                              // shifted + short last block
+			edit(c04IntTable(cat(c04Range(0, 255, 1), blks(0, nb)), 0), 7, b0+254, b0+255, b0+600), // edits at block edges
+		}
+		if ctx.Thorough() {
+			sh = append(sh,
+				c04IntTable(blks(2, nb), 0),
+				c04IntTable(cat(c04Range(0, 510, 1), blks(0, nb), c04Range(5000, 5080, 1)), 0), // 510 rows inserted in front
+				c04IntTable(cat(blks(0, 1), blks(last, nb)), 0),                                // B0 Blast
+			)
+		}
+		for i, t1 := range sh {
+			for j, t2 := range sh {
+				if !ctx.Thorough() && !(i == 0 || j == 0 || (i+2*j)%11 == 0) {
+					continue
+				}
+				add("shifted", false, t1, t2)
+				addK("shifted", 0, 1, t1, t2)
+				if ctx.Thorough() || (i+j)%5 == 0 {
+					addK("shifted", 0, 3, t1, t2) // one store: shared blocks are the very same objects
+					addK("shifted", 3, 1, t1, t2) // through the readers
+				}
+			}
+		}
+	}
+
+	// --- table indices rebuilt by ingest.IndexTable, as for a table that was received (fetch / pull /
+	//     push) instead of ingested: same answer required.  Needs key columns that are not the leading
+	//     columns and several blocks to matter.
+	{
+		notFirst := func(ints []int, variant int) *c04Table {
+			t := c04IntTable(ints, variant)
+			t.Cols = []string{"v", "w", "a"}
+			return t
+		}
+		nf := []*c04Table{
+			notFirst(c04Range(0, 700, 1), 0), notFirst(c04Range(100, 900, 1), 3),
+			notFirst(c04Range(0, 1400, 2), 0), notFirst(c04Range(300, 560, 1), 4),
+		}
+		for i, t1 := range nf {
+			for j, t2 := range nf {
+				if !ctx.Thorough() && (i+j)%2 == 1 {
+					continue
+				}
+				addK("reindexed", 0, 4, t1, t2)
+			}
+		}
+		for i, pr := range byTag["composite"] {
+			if i%3 == 0 || ctx.Thorough() {
+				addK("reindexed", 0, 4+i%2, pr[0], pr[1])
+			}
+		}
+		for i, pr := range byTag["keyless"] {
+			if i%2 == 0 || ctx.Thorough() {
+				addK("reindexed", 0, 4, pr[0], pr[1])
+			}
+		}
+		for i, pr := range byTag["shifted"] {
+			if i%6 == 0 {
+				addK("reindexed", 3, 5, pr[0], pr[1])
+			}
+		}
+	}
+
 	// --- options and stores: emitUnchanged on (as merge uses it), both tables in one object store
 	//     (kind 0 otherwise keeps each table in its own store, as when diffing a fetched table)
 	for _, pr := range byTag["exh"] {
@@ -907,7 +1042,7 @@ func genC04(ctx *Ctx) []Case {
 			{0, cp1, cp2}, {1, cp2, cp1},
 			{0, kl1, kl2}, {1, kl2, kl1},
 			{0, big[8], wide(big[7])}, {2, wide(big[8]), big[5]},
-			{0, big[10], big[11]},
+			{0, big[10], full4b},
 			{0, big[3], empty}, {1, empty, big[3]},
 			{0, big[8], otherPK(big[7])},
 			{0, pfx[0], pfx[1]}, {1, pfx[3], pfx[2]}, {2, pfx[4], pfx[5]},
